@@ -269,5 +269,41 @@ theorem Plan.onlyPanics_fin : ∀ (p : Plan α), p.OnlyPanics → p.tr.fin = non
     rw [Op2.exec, ihl, Op2.cont_ok o _ _ s1 hs1, ihr]
     simp [hs2, finish, hm]
 
+
+/-! ### prefix monotonicity of streaming loops -/
+
+/-- A loop fed a prefix of its input (however either input ends) has yielded a prefix of its output. -/
+theorem Phase.run_outs_prefix (ph : Phase σ α) (fin fin0 : Option Nat) :
+    ∀ (cs cs0 : List α) (s : σ), cs <+: cs0 → (ph.run fin s cs).1 <+: (ph.run fin0 s cs0).1 := by
+  intro cs
+  induction cs with
+  | nil =>
+    intro cs0 s _
+    have : (ph.run fin s []).1 = [] := by
+      cases fin with
+      | none => simp [Phase.run]
+      | some e => by_cases hb : ph.stopBefore s = true <;> simp [Phase.run, hb]
+    rw [this]; exact List.nil_prefix
+  | cons c cs ih =>
+    intro cs0 s hp
+    cases cs0 with
+    | nil => simp at hp
+    | cons c0 cs0 =>
+      rw [List.cons_prefix_cons] at hp
+      obtain ⟨hc, hp'⟩ := hp
+      subst hc
+      simp only [Phase.run]
+      by_cases hb : ph.stopBefore s = true
+      · simp [hb]
+      · simp only [hb]
+        cases hoc : ph.onChunk s c with
+        | error e => simp
+        | ok r =>
+          obtain ⟨s', outs⟩ := r
+          by_cases ha : ph.stopAfter s' = true
+          · simp [ha]
+          · simp only [ha]
+            simpa using (List.prefix_append_right_inj outs).mpr (ih cs0 s' hp')
+
 end Strm
 end RlModel
